@@ -153,6 +153,34 @@ def handle_state_oracle(docs):
     return out
 
 
+def positional_oracle(docs):
+    """options given by position have the effect of the same options given by keyword, on the three routes that take them"""
+    from pydbml import PyDBML
+    from pydbml.renderer.sql.default import DefaultSQLRenderer
+    from pydbml.renderer.dbml.default import DefaultDBMLRenderer
+    out = []
+
+    def snap(f):
+        try:
+            d = f()
+            return ('ok', docgen.content(d), d.dbml, d.allow_properties, d.sql_renderer.__name__, d.dbml_renderer.__name__)
+        except Exception as e:   # noqa
+            return ('raise', pyscript.exc_name(e))
+    for text, allow in docs:
+        pos = (allow, DefaultSQLRenderer, DefaultDBMLRenderer)
+        base = snap(lambda: PyDBML.parse(text, allow_properties=allow, sql_renderer=DefaultSQLRenderer, dbml_renderer=DefaultDBMLRenderer))
+        for name, f in [('PyDBML(text, *options)', lambda: PyDBML(text, *pos)), ('PyDBML.parse(text, *options)', lambda: PyDBML.parse(text, *pos)),
+                        ('PyDBML().parse(text, *options)', lambda: PyDBML().parse(text, *pos)),
+                        ('PyDBML().parse(text, allow_properties) with one positional option', lambda: PyDBML().parse(text, allow))]:
+            got = snap(f)
+            if got != base:
+                out.append({'cause': 'oracle', 'clause': 'options by keyword on PyDBML.parse and %s give different results' % name,
+                            'detail': '%s vs %s' % (str(base)[:200], str(got)[:200]),
+                            'input': {'kind': 'document', 'text_hex': hexs(text), 'text': text, 'allow_properties': allow}})
+                return out
+    return out
+
+
 def run(v, tier, st, pr):
     r = rng('c12')
     n = 40 if tier == 'quick' else 1500
@@ -218,6 +246,7 @@ def run(v, tier, st, pr):
     fails += other_types_oracle()
     # an open text file is read through the handle: whatever codec the caller opened it with
     fails += codec_oracle(docs[:12] + [('Table "café" {\n  "naïve" int [note: \'é ü ñ\']\n}\n', False)])
+    fails += positional_oracle(docs[:15] + [('Table t {\n  id int\n}\n', False), ("Table t [k: 'v'] {\n  id int\n}\n", True)])
     fails += handle_state_oracle(docs[:20] + [('Table t {\n  id int\n}\n', False)])
     fails.sort(key=lambda f: len(f['input'].get('text', '')))
     total = verdicts.conclude(v, pr, st, {'entry': stream_script.strip(res)}, fails)
